@@ -40,6 +40,8 @@ class Monitors(ApplyMonitors, WireMonitors, MapMonitors, MiscMonitors, MonBase):
     def on_probe(self, ev):
         if ev.get("what") == "c17pair":
             return self.c17_probe(ev)
+        if ev.get("what") == "c17round":
+            return self.c17_round(ev)
         return "noprobe"
 
     def on_finish(self):
